@@ -55,6 +55,13 @@ func writerTrace(w wl.Workload, reads string) (*wl.Trace, []byte) {
 		tr.Add(wl.Ev{"ev": "Lex", "attcrc": true, "toks": lr.Toks, "end": lr.End, "why": errStr(lr.Err)})
 		lr2 := run.LexAll(bytes.NewReader(b), run.LexOpts{SkipMagic: w.Cfg.SkipMagic, Attachments: true})
 		tr.Add(wl.Ev{"ev": "Lex", "attcrc": false, "toks": lr2.Toks, "end": lr2.End, "why": errStr(lr2.Err)})
+		// records handed out by the lexer into memory it provides itself stay as they were (validation on / off, nil / undersized buffer)
+		for _, validate := range []bool{false, true} {
+			for _, small := range []bool{false, true} {
+				rr := run.LexRetain(b, w.Cfg.SkipMagic, validate, small)
+				tr.Add(wl.Ev{"ev": "LexRetain", "validate": validate, "small": small, "n": rr.N, "changed": rr.Changed, "end": rr.End})
+			}
+		}
 	}
 	// Reader has no option to skip the magic or to supply a decompressor: those files are read with the lexer only
 	if strings.Contains(reads, "scan") && !w.Cfg.SkipMagic && !(w.Cfg.Chunked && w.Cfg.Compression == "xor") {
